@@ -145,3 +145,30 @@ class Driver:
         j, p, m = self.choose(a, b, pool)
         s, e = self.dispatch(j, p, m)
         return j, p, m, s, e
+
+
+def fork(dispatcher, model):
+    """copy.deepcopy of a dispatcher - with whatever is subscribed to it -
+    and of the model that mirrors it (a planner branching the state)."""
+    import copy
+
+    return copy.deepcopy(dispatcher), copy.deepcopy(model)
+
+
+def disturb(clone, cmodel, inst, steps=2):
+    """Plays a forked dispatcher forward (last ready operation on its last
+    eligible machine) and queries it, as a look-ahead would."""
+    done = 0
+    for _ in range(steps):
+        if cmodel.complete():
+            break
+        j, p = cmodel.ready()[-1]
+        m = inst["machines"][j][p][-1]
+        clone.dispatch(clone.instance.jobs[j][p], m)
+        cmodel.apply(j, m)
+        clone.current_time()
+        clone.available_operations()
+        clone.completed_operations()
+        clone.uncompleted_operations()
+        done += 1
+    return done
